@@ -544,7 +544,11 @@ class X12LoopDataNode(X12DataNode):
         ret.end_loops = list(self.end_loops)
         ret.parent = self.parent
         for child in self.children:
-            ret.children.append(child.copy())
+            if child.type is None:
+                continue  # deleted, not yet cleaned up
+            child_copy = child.copy()
+            child_copy.parent = ret  # the copy's nodes belong to the copy, not to the original tree
+            ret.children.append(child_copy)
         return ret
 
     @property
